@@ -48,6 +48,11 @@ FIXED = [
 ]
 
 OPEN = [
+ {"id": "KF-C06-single-side-evaluation", "property": "C06", "status": "open", "design_item": "D62",
+  "match": {"kind": "exception", "bcls": "IntervalSingleBoundaryPoint", "evaluated": True, "exc": "AssertionError", "site": "__call__"},
+  "what": "IntervalSingleBoundaryPoint.__call__ (partial evaluation of Interval.boundary_left / boundary_right) evaluates the interval but keeps the UNEVALUATED side function: the evaluated end point still needs the variable, sampling it (and asking for its normal) without that variable raises AssertionError",
+  "witness": "I = Interval(R1('x'), 0, lambda t: t + 1).boundary_right; J = I(t=torch.tensor([[2.0]])); J.sample_random_uniform(n=3) -> AssertionError \"The argument 't' is necessary\"",
+  "why_not_fixed": "the repository's own test test_call_single_interval_bound asserts that the side of the evaluated object is still the original function (called_I.side.fun == upper_bound), so the repair cannot be made without editing the test suite"},
  {"id": "KF-C04-D24-stale-data-functions", "property": "C04", "status": "open", "design_item": "D24",
   "match": {"kind": "stale_data_functions", "sampler": "static_finite_interval", "data_functions": True},
   "what": "a condition with a static sampler that has a FINITE resample_interval and data functions evaluates the data functions once at construction; after the sampler resampled, the residual still receives the data of the first point set (rows no longer belong to the sampled points)",
